@@ -122,6 +122,13 @@ fn gen_ops(r: &mut Rng, sel_heavy: bool) -> Vec<Op> {
         else { Op::SetRun(r.below(3) as u32) };
         ops.push(op);
     }
+    // a long interactive session: many other commands in between, then back to an earlier one (its items keep their identity)
+    if r.chance(1, 30) {
+        for q in 3..(38 + r.below(10) as u32) { ops.push(Op::SetRun(q)); }
+        ops.push(Op::SetRun(r.below(3) as u32));
+        ops.push(Op::Toggle);
+        ops.push(Op::ToggleAll);
+    }
     ops
 }
 
@@ -221,7 +228,7 @@ fn main() {
             };
             // the commands differ only in blanks around them: they are still different commands
             if let Op::SetRun(q) = op {
-                run_no = mark_new_run(&format!("{}verif-run{}", if *q == 2 { " " } else { "" }, if *q == 1 { " " } else { "" }));
+                run_no = if *q < 3 { mark_new_run(&format!("{}verif-run{}", if *q == 2 { " " } else { "" }, if *q == 1 { " " } else { "" })) } else { mark_new_run(&format!("verif-run-other-{}", q)) };
                 // a command keeps its run number; different commands have different ones
                 if let Some((q2, _)) = run_of.iter().find(|(q2, n2)| (*q2 == *q) != (*n2 == run_no)) {
                     bad.entry("C10").or_insert(format!("op #{} {:?}: command #{} got run number {}, command #{} has {}", k, op, q, run_no, q2, run_of.iter().find(|x| x.0 == *q2).unwrap().1));
